@@ -13,3 +13,9 @@ print(json.dumps(res.stats, indent=0)[:1500])
 for v in res.violations:
     if v.get("key") == "entries":
         print(json.dumps(v, default=str)[:3000])
+seen=set()
+for v in res.violations:
+    if v.get("key") not in seen:
+        seen.add(v.get("key"))
+        print("VIOL", v["what"], v.get("key"), json.dumps({k: v[k] for k in v if k not in ("what","case")}, default=str)[:400])
+        print("   ctx", json.dumps(v["case"], default=str)[:400])
